@@ -331,34 +331,18 @@ def _c18_worker(case):
         signal.alarm(0)
 
 def _bbm_attr_worker(f):
-    """build() vs biodivine_aeon.Attractors on one repository model (both under a time budget)"""
-    import signal
-    signal.signal(signal.SIGALRM, P._alarm); signal.alarm(int(os.environ.get("VERIF_BBM_TIMEOUT", "60")))
+    """build() vs biodivine_aeon.Attractors on one repository model, in a child process with a hard time budget"""
+    budget = int(os.environ.get("VERIF_BBM_TIMEOUT", "60"))
+    child = os.path.join(os.path.dirname(__file__), "bbm_child.py")
     try:
-        from biodivine_aeon import Attractors, AsynchronousGraph
-        sd = SuccessionDiagram.from_file(f)
-        n = sd.network.variable_count()
-        if not sd.expand_block():
-            return (f, "skipped", n)
-        seeds = []
-        for i in sd.expanded_ids():
-            seeds += sd.node_attractor_seeds(i, compute=True)
-        attrs = Attractors.attractors(sd.symbolic)
-        sets = [a.vertices() for a in attrs]
-        hit = []
-        for s in seeds:
-            v = sd.symbolic.mk_subspace(s).vertices()
-            k = [i for i, a in enumerate(sets) if not a.intersect(v).is_empty()]
-            hit.append(k[0] if len(k) == 1 else None)
-        if None in hit or sorted(hit) != list(range(len(sets))):
-            return (f, f"build() found {len(seeds)} seeds hitting attractors {sorted(h for h in hit if h is not None)}; AEON finds {len(sets)} attractors", n)
-        return (f, None, n)
-    except P.CaseTimeout:
+        p = subprocess.run([sys.executable, child, f], capture_output=True, text=True, timeout=budget)
+        lines = [l for l in p.stdout.splitlines() if l.startswith("[")]
+        if not lines:
+            return (f, f"error child produced no result: {p.stderr[-300:]}", 0)
+        r = json.loads(lines[-1])
+        return (r[0], r[1], r[2])
+    except subprocess.TimeoutExpired:
         return (f, "skipped", 0)
-    except Exception as e:
-        return (f, f"error {type(e).__name__}: {e}", 0)
-    finally:
-        signal.alarm(0)
 
 @register("C18")
 def run_C18(tier, seed):
